@@ -467,6 +467,32 @@ Definition no_bad (os : list obs) : bool :=
 Definition closed_by_destroy (ops : list op) (os : list obs) : bool :=
   existsb (fun p => match fst p with ODestroy => ok (snd p) | _ => false end) (combine ops os).
 
+(* value() read again without advancing must repeat what the last access delivered (or rethrow the exception) *)
+Fixpoint peek_ok (ops : list op) (os : list obs) (exc lastv : option Z) : bool :=
+  match ops, os with
+  | x :: ops', o :: os' =>
+      if ok o then
+        match x with
+        | OPeek =>
+            (match o_res o, exc, lastv with
+             | RExc e, Some e', _ => e =? e'
+             | RVal v, None, Some v' => v =? v'
+             | RNReady, None, None => true
+             | _, _, _ => false
+             end) && peek_ok ops' os' exc lastv
+        | OAccess _ _ | OComplete _ _ =>
+            match o_res o with
+            | RVal v => peek_ok ops' os' exc (Some v)
+            | RExc e => peek_ok ops' os' (Some e) None
+            | REndF | REndT => peek_ok ops' os' exc None
+            | _ => peek_ok ops' os' exc lastv
+            end
+        | _ => peek_ok ops' os' exc lastv
+        end
+      else peek_ok ops' os' exc lastv
+  | _, _ => true
+  end.
+
 Definition gen_oracle (ha : bool) (wops wobs : list (list Z)) : bool :=
   let ops := map (decode ha) wops in
   let os := map dec_obs wobs in
@@ -474,6 +500,7 @@ Definition gen_oracle (ha : bool) (wops wobs : list (list Z)) : bool :=
   | OCreate sc :: _ =>
       Nat.eqb (length ops) (length os)
       && no_bad os
+      && peek_ok ops os None None
       && conforms (visible ha (log_of ops os 0)) (visible ha (spec sc (call_args ops os))) 0
       && (if closed_by_destroy ops os
           then balanced (all_events os) && (sumz (map o_news os) =? 1) && (sumz (map o_dels os) =? 1)
